@@ -229,7 +229,8 @@ def check_array_unique_dispatch(run, db):
             else:
                 okk = True
             # range: begin = result.get(), end = result.get() + count
-            b, e2 = sym.canon(args[1], {0: 'size'}), sym.canon(args[2], {0: 'size'})
+            vals = common.single_assignment_locals(f)
+            b, e2 = sym.canon(common.expand_locals(args[1], vals), {0: 'size'}), sym.canon(common.expand_locals(args[2], vals), {0: 'size'})
             if not (e2 == '(%s + $size)' % b or e2 == '($size + %s)' % b):
                 okk = False
                 why = 'constructs the range [%s, %s), not count elements' % (b, e2)
@@ -570,8 +571,9 @@ def check_delegation(run, db):
         why = 'does not construct a joint_ptr from (alloc, joint_size, ...)'
         if okk and f.short == 'clone_joint':
             t = cons[0]
-            sz = sym.canon(t['args'][1], {1: 'joint'})
-            okk = 'capacity_used(get_memory($joint))' in sz and sym.canon(t['args'][2], {1: 'joint'}).endswith('$joint')
+            vals = common.single_assignment_locals(f)
+            sz = sym.canon(common.expand_locals(t['args'][1], vals), {1: 'joint'})
+            okk = 'capacity_used(get_memory($joint))' in sz and sym.canon(common.expand_locals(t['args'][2], vals), {1: 'joint'}).endswith('$joint')
             why = 'clone is not created with the source\'s used capacity and the source object (size term: %s)' % sz
         if okk:
             run.ok('R-GUARD-DELEG', inst, f.loc, 'builds the joint_ptr through the checked constructor')
